@@ -430,4 +430,131 @@ theorem fileSeek_at {l h k m p e c} (a : At l h k m p e c) (hk : Regular k) (off
   simp only [fileSeek, refIO, hs]
   exact ⟨by simp, trivial, h2⟩
 
+/-! ### random access, print_to, scan_from -/
+
+theorem overwrite_read_back (c : List Byte) (t : Nat) (d : List Byte) :
+    ((overwrite c t d).drop t).take d.length = d := by
+  have hpre : ((c ++ List.replicate (t - c.length) 0).take t).length = t := by
+    simp [List.length_take, List.length_append]; omega
+  simp only [overwrite, List.append_assoc]
+  rw [List.drop_append_of_le_length (by omega)]
+  rw [List.drop_of_length_le (by omega)]
+  simp
+
+theorem vfprintf_at_end {l h k m p e c} (a : At l h k m p e c) (hk : Regular k) (hw : m.canWrite = true)
+    (hp : m = .a ∨ p = c.length) (t : List Byte) :
+    (Ref.vfprintf l h t).2 = t.length ∧
+      At (Ref.vfprintf l h t).1 h k m (if t.length = 0 then p else c.length + t.length) e (c ++ t) := by
+  obtain ⟨last, hs, hf⟩ := id a
+  by_cases ht : t = []
+  · subst ht; simp [Ref.vfprintf, hs, hw]; exact a
+  · have hlen : t.length ≠ 0 := by cases t <;> simp_all
+    obtain ⟨_, h2⟩ := fwrite_at_end a hk hw hp t ht
+    simp only [Ref.vfprintf, hs, hw, hlen]
+    simpa using h2
+
+/-- print_to of any fragments at the end of the file: every fragment arrives, in order; the value is the character count -/
+theorem filePrintFrom_at_end {l h k m e c} (a : At l h k m c.length e c) (hk : Regular k) (hw : m.canWrite = true)
+    (pos : Int) (calls : List Call) (frags : List (List Byte)) :
+    let r := filePrintFrom refIO l h pos calls frags
+    r.out = .ok (pos + frags.flatten.length) ∧ r.f = some h ∧
+      At r.lib h k m (c ++ frags.flatten).length e (c ++ frags.flatten) := by
+  induction frags generalizing l c pos calls with
+  | nil => simpa [filePrintFrom] using a
+  | cons t ts ih =>
+    obtain ⟨h1, h2⟩ := vfprintf_at_end a hk hw (Or.inr rfl) t
+    rcases hv : Ref.vfprintf l h t with ⟨l1, n⟩
+    rw [hv] at h1 h2
+    simp only at h1 h2
+    subst h1
+    have hp : (if t.length = 0 then c.length else c.length + t.length) = (c ++ t).length := by
+      by_cases ht : t.length = 0 <;> simp [ht]
+    rw [hp] at h2
+    have := ih h2 (pos + (t.length : Int)) (calls ++ [.on .vfprintf h])
+    have hn : ¬ ((t.length : Int) < 0) := by omega
+    simp only [filePrintFrom, refIO, hv, hn, if_false]
+    simp only [refIO] at this
+    refine ⟨?_, this.2.1, ?_⟩
+    · rw [this.1]; simp [Int.add_assoc]
+    · simpa [List.append_assoc] using this.2.2
+
+/-- `scan_from(f, 0, "%$ ", intObject)` on an open readable stream is determined by the bytes after the position:
+    a failed match raises FormatError having consumed what `scanDec` says; a successful one also skips the white space
+    that follows -/
+theorem fileScanInt_at {l h k m p e c} (a : At l h k m p e c) (hk : Regular k) (hr : m.canRead = true) :
+    let r := fileScanInt refIO l (some h)
+    let sd := Ref.scanDec (c.drop p)
+    match sd.2.2 with
+    | none => r.out = .raised .FormatError ∧ At r.lib h k m (p + sd.1) (e || sd.2.1) c
+    | some v =>
+      let ws := ((c.drop (p + sd.1)).takeWhile isSpace).length
+      r.out = .ok v ∧ At r.lib h k m (p + sd.1 + ws) (e || sd.2.1 || ((c.drop (p + sd.1)).drop ws).length = 0) c := by
+  obtain ⟨last, hs, hf⟩ := id a
+  have hkf : k ≠ fileFull := hk.2
+  have hc : l.content k = c := a.content
+  intro r sd
+  rcases hsd : Ref.scanDec (c.drop p) with ⟨n, hit, v⟩
+  have hsd' : sd = (n, hit, v) := hsd
+  have h1 : Ref.vfscanfInt l h = (l.setStream h ⟨k, m, p + n, e || hit, .rd⟩, v) := by
+    simp [Ref.vfscanfInt, hs, hr, hkf, hc, hsd]
+  have a1 : At (l.setStream h ⟨k, m, p + n, e || hit, .rd⟩) h k m (p + n) (e || hit) c := by
+    simp [At, Ref.setStream, hf]
+  cases v with
+  | none =>
+    simp only [hsd']
+    show (fileScanInt refIO l (some h)).out = _ ∧ At (fileScanInt refIO l (some h)).lib _ _ _ _ _ _
+    simp only [fileScanInt, refIO, h1]
+    exact ⟨trivial, a1⟩
+  | some x =>
+    simp only [hsd']
+    show (fileScanInt refIO l (some h)).out = _ ∧ At (fileScanInt refIO l (some h)).lib _ _ _ _ _ _
+    simp only [fileScanInt, refIO, h1]
+    refine ⟨trivial, ?_⟩
+    simp [Ref.vfscanfWs, hr, hkf, At, Ref.setStream, hf, Ref.content]
+
+
+theorem fileWrite_at {l h k m p e c} (a : At l h k m p e c) (hk : Regular k) (hw : m.canWrite = true)
+    (hm : m ≠ .a) (d : List Byte) (hd : d ≠ []) :
+    let r := fileWrite refIO l (some h) d
+    r.out = .ok 1 ∧ r.f = some h ∧ At r.lib h k m (p + d.length) e (overwrite c p d) := by
+  obtain ⟨h1, h2⟩ := fwrite_at a hk hw hm d hd
+  have hlen : d.length ≠ 0 := by cases d <;> simp_all
+  rcases hfw : Ref.fwrite l h d with ⟨l1, num⟩
+  rw [hfw] at h1 h2
+  simp only at h1 h2
+  subst h1
+  simp only [fileWrite, refIO, hfw]
+  exact ⟨by simp, trivial, h2⟩
+
+/-- print_to calls in sequence (each a list of fragments); collects the outcomes -/
+def printAll {σ : Type} (io : Stdio σ) (l : σ) (f : Option Handle) : List (List (List Byte)) → σ × List (Out Int)
+  | [] => (l, [])
+  | fr :: rest =>
+    let r := filePrint io l f fr
+    let (l', outs) := printAll io r.lib f rest
+    (l', r.out :: outs)
+
+theorem printAll_at_end {l h k m e c} (a : At l h k m c.length e c) (hk : Regular k) (hw : m.canWrite = true)
+    (texts : List (List (List Byte))) :
+    (printAll refIO l (some h) texts).2 = texts.map (fun fr => .ok (fr.flatten.length : Int)) ∧
+      At (printAll refIO l (some h) texts).1 h k m (c ++ texts.flatten.flatten).length e (c ++ texts.flatten.flatten) := by
+  induction texts generalizing l c with
+  | nil => simpa [printAll] using a
+  | cons fr rest ih =>
+    have hstep : (filePrint refIO l (some h) fr).out = .ok (fr.flatten.length : Int) ∧
+        At (filePrint refIO l (some h) fr).lib h k m (c ++ fr.flatten).length e (c ++ fr.flatten) := by
+      cases fr with
+      | nil => simpa [filePrint] using a
+      | cons t ts =>
+        obtain ⟨o1, _, o3⟩ := filePrintFrom_at_end a hk hw 0 [] (t :: ts)
+        simp only [filePrint]
+        exact ⟨by simpa using o1, o3⟩
+    have ih' := ih hstep.2
+    simp only [printAll, List.map_cons]
+    rcases hrest : printAll refIO (filePrint refIO l (some h) fr).lib (some h) rest with ⟨l', outs⟩
+    rw [hrest] at ih'
+    simp only at ih'
+    refine ⟨by rw [hstep.1, ih'.1], ?_⟩
+    simpa [List.append_assoc] using ih'.2
+
 end Cello.File
